@@ -59,6 +59,7 @@ def build(config, tier):
         nonan = "__verif::nonan%dx%d" % (w, n)
         ln = T.lname
         pre = "c01_%s_%s" % (config, ln)
+        MASK = "BVec4" if (N == "Vec4" and backend == "scalar") else T.mask
 
         def add(fn, impl, ens, args, call, solver, stubs=(), req=(), path=None, desc="", cls="lane", **kw):
             p = path or "glam::%s::%s" % (N, fn)
@@ -108,15 +109,15 @@ def build(config, tier):
             [A, ("a", "mk::<%s>()" % N), ("b", "mk::<%s>()" % N)], "self_.mul_add(a, b)", "cadical", ["uf_mul_add%d" % w], desc="%s::mul_add lane == fused mul_add(a, b, c) (shim shared with the spec)" % N)
         # comparisons -> mask bitmask
         for m, e in CMP.items():
-            add(m, "impl %s" % N, "|r: &%s| r.bitmask() == __verif::bm%d(%s(self.to_array(), rhs.to_array(), |a: %s, b: %s| %s))" % (T.mask, n, zp, t, t, e),
+            add(m, "impl %s" % N, "|r: &%s| r.bitmask() == __verif::bm%d(%s(self.to_array(), rhs.to_array(), |a: %s, b: %s| %s))" % (MASK, n, zp, t, t, e),
                 [A, B], "self_.%s(rhs)" % m, "cadical", desc="%s::%s mask lane == (%s)" % (N, m, e))
         add("is_nan", "impl %s" % N, "|r: &bool| *r == __verif::any%d(%s(self.to_array(), |a: %s| a.is_nan()))" % (n, mp, t), [A], "self_.is_nan()", "cadical",
             desc="%s::is_nan == any lane is NaN" % N)
         add("is_finite", "impl %s" % N, "|r: &bool| *r == __verif::all%d(%s(self.to_array(), |a: %s| a.is_finite()))" % (n, mp, t), [A], "self_.is_finite()", "cadical",
             desc="%s::is_finite == all lanes finite" % N)
-        add("is_nan_mask", "impl %s" % N, "|r: &%s| r.bitmask() == __verif::bm%d(%s(self.to_array(), |a: %s| a.is_nan()))" % (T.mask, n, mp, t), [A], "self_.is_nan_mask()", "cadical",
+        add("is_nan_mask", "impl %s" % N, "|r: &%s| r.bitmask() == __verif::bm%d(%s(self.to_array(), |a: %s| a.is_nan()))" % (MASK, n, mp, t), [A], "self_.is_nan_mask()", "cadical",
             desc="%s::is_nan_mask lane == a.is_nan()" % N)
-        add("is_finite_mask", "impl %s" % N, "|r: &%s| r.bitmask() == __verif::bm%d(%s(self.to_array(), |a: %s| a.is_finite()))" % (T.mask, n, mp, t), [A], "self_.is_finite_mask()", "cadical",
+        add("is_finite_mask", "impl %s" % N, "|r: &%s| r.bitmask() == __verif::bm%d(%s(self.to_array(), |a: %s| a.is_finite()))" % (MASK, n, mp, t), [A], "self_.is_finite_mask()", "cadical",
             desc="%s::is_finite_mask lane == a.is_finite()" % N)
         add("is_negative_bitmask", "impl %s" % N, "|r: &u32| *r == __verif::bm%d(%s(self.to_array(), |a: %s| a.is_sign_negative()))" % (n, mp, t), [A], "self_.is_negative_bitmask()", "cadical",
             desc="%s::is_negative_bitmask bit i == sign bit of lane i" % N)
